@@ -22,7 +22,7 @@ from engines import designs, sem
 STREAM = "c10"
 RUN_TIMEOUT_S = 600.0
 TIERS = {
-    "quick": {"runs": 1200, "wall_s": 260, "batch": 400, "det_same": 6, "det_fresh": 1},
+    "quick": {"runs": 2400, "wall_s": 260, "batch": 800, "det_same": 6, "det_fresh": 1},
     "thorough": {"runs": 30000, "wall_s": 3000, "batch": 1000, "det_same": 16, "det_fresh": 2},
 }
 RULE = ("Each run is one glbfloor instance: a die <=12x12 lattice units with 0-2 blockages refined by "
@@ -79,6 +79,29 @@ def gen_case(r, index, tier):
         else:
             m["boxes"] = m["boxes"][:3]
             tot += sum((b[2] - b[0]) * (b[3] - b[1]) for b in m["boxes"])
+    # replicated block: another module is an instance of a movable hard block - same area, name derived from the block's
+    # name by a suffix (M1 -> M10, M1_0, M1x ...), as generated instance names are
+    hards = [m for m in nl["modules"] if m["kind"] == "hard"]
+    if hards and len(nl["modules"]) >= 2 and r.chance(0.2):
+        h = r.choice(hards)
+        o = r.choice([m for m in nl["modules"] if m is not h])
+        new = h["name"] + r.choice(["0", "1", "00", "_0", "_1", "_a", "x"])
+        if all(m["name"] != new for m in nl["modules"]):
+            old_name = o["name"]
+            o["name"] = new
+            for e in nl["nets"]:
+                e["mods"] = [new if x == old_name else x for x in e["mods"]]
+            if o["kind"] == "soft":
+                o["area"] = max(1, sum((b[2] - b[0]) * (b[3] - b[1]) for b in h["boxes"]))
+            elif o.get("boxes"):
+                # an instance with rectangles gets the block's shape, at its own place, if it fits there
+                dx, dy = o["boxes"][0][0] - h["boxes"][0][0], o["boxes"][0][1] - h["boxes"][0][1]
+                cand = [(b[0] + dx, b[1] + dy, b[2] + dx, b[3] + dy) for b in h["boxes"]]
+                others = [tuple(b) for m in nl["modules"] if m is not o and m["kind"] == "fixed" for b in m["boxes"]] + \
+                    [tuple(g["box"]) for g in die["regions"]]
+                if all(b[0] >= 0 and b[1] >= 0 and b[2] <= die["nx"] and b[3] <= die["ny"] for b in cand) and \
+                        (o["kind"] != "fixed" or all(designs.overlap_area(b, t) == 0 for b in cand for t in others)):
+                    o["boxes"] = cand
     refine = {"how": "split", "r": r.choice([1.5, 2, 3]), "n": r.randint(2, 12)} if (die["regions"] or r.chance(0.7)) else \
         {"how": "grid", "rows": r.randint(1, 4), "cols": r.randint(1, 4)}
     # overlap-heavy family: big soft modules piled on the same spot of a fine grid (whole cells start fully claimed by
@@ -280,6 +303,11 @@ def run_case(case):
         if ret is not None:
             real_faults = [f["kind"] for f in solver.fired if f["kind"] != "mirror"]
             key = {"after_fault": real_faults[0] if real_faults else "none"}
+            names = {m.name for m in net.modules}
+            if any(("%s_%d" % (m.name, k_)) in names for m in net.modules if m.is_hard and not m.is_fixed
+                   for k_ in range(max(1, m.num_rectangles))):
+                key["aux_name_collision"] = True   # a module is called like the auxiliary module of a hard module's rectangle
+                probes["module_named_like_an_auxiliary_module"] = 1
             cells = _judge(ret, snap, W, H, size, key, viol)
             rdie = ret[0]
             hist.append({"out": "returned", "cells": len(cells), "solves": solver.nsolve, "faults": [f["kind"] for f in solver.fired]})
